@@ -23,6 +23,9 @@ NoneS(x) == [k |-> "none"]
 SExpr(e) == [k |-> "expr", e |-> e]
 Let(n, e) == [k |-> "let", n |-> n, e |-> e]
 Const(n, e) == [k |-> "const", n |-> n, e |-> e]
+\* a declaration written as a further declarator of the declaration before it (`let a = x, b = a + 1`): the same meaning as two statements
+LetJ(n, e) == [k |-> "let", n |-> n, e |-> e, join |-> TRUE]
+ConstJ(n, e) == [k |-> "const", n |-> n, e |-> e, join |-> TRUE]
 LetT(n, ty, e) == [k |-> "lett", n |-> n, ty |-> ty, e |-> e]         \* let n: ty = e   (ty as spelled in the source)
 LetU(n, ty) == [k |-> "lett", n |-> n, ty |-> ty, e |-> [k |-> "none"]] \* let n: ty;      (declared, not assigned)
 Asg(n, e) == [k |-> "asg", n |-> n, e |-> e]
